@@ -110,6 +110,7 @@ func runWorker(cfg workerCfg) int {
 			}
 			for _, v := range res.Violations {
 				v.StreamSeed, v.Idx, v.Shard, v.NShards = seed, idx, cfg.shard, cfg.nshards
+				v.GOMAXPROCS = runtime.GOMAXPROCS(0)
 				key := v.Oracle + "|" + v.Site
 				wo.ViolCount[key]++
 				if wo.ViolCount[key] <= 2 && len(wo.Violations) < cfg.maxViols {
@@ -293,13 +294,18 @@ func execSelfWatched(timeout time.Duration, journal string, stall time.Duration,
 // serialised run can be masked by happens-before edges from sync.Pool inside package
 // regexp (DESIGN §2.4), so a data-race class gets a few fresh-process attempts.
 func execPlanFreshFor(workdir string, plan []byte, prop string, v Violation) (*RunResult, error) {
-	attempts := 2 // a changed library may itself be nondeterministic (pools, maps)
-	if v.Oracle == "C13/data-race" {
-		attempts = 4
+	// a changed library may itself be nondeterministic (sync.Pool sharing depends on which P a
+	// task runs on, and under -race Pool.Put drops at random): a few attempts, first under the
+	// GOMAXPROCS of the process that saw the violation
+	gmps := []int{v.GOMAXPROCS, v.GOMAXPROCS}
+	if prop == "C13" {
+		gmps = []int{v.GOMAXPROCS, v.GOMAXPROCS, 2, 16, 1}
 	}
 	var rr *RunResult
 	var err error
-	for i := 0; i < attempts; i++ {
+	defer func() { freshGOMAXPROCS = 0 }()
+	for _, g := range gmps {
+		freshGOMAXPROCS = g
 		rr, err = execPlanFresh(workdir, plan, prop)
 		if err == nil && sameClass(rr, v) != nil {
 			return rr, nil
@@ -307,6 +313,9 @@ func execPlanFreshFor(workdir string, plan []byte, prop string, v Violation) (*R
 	}
 	return rr, err
 }
+
+// freshGOMAXPROCS, when >0, is the GOMAXPROCS of the next fresh processes (default: the per-property value).
+var freshGOMAXPROCS int
 
 func execPlanFresh(workdir string, plan []byte, prop string) (*RunResult, error) {
 	os.MkdirAll(workdir, 0o755)
@@ -318,7 +327,11 @@ func execPlanFresh(workdir string, plan []byte, prop string) (*RunResult, error)
 	f.Close()
 	defer os.Remove(f.Name())
 	cfg := driveCfg{prop: prop, workdir: workdir}
-	so, se, code := execSelf(120*time.Second, append(workerEnvBase(cfg), fmt.Sprintf("GOMAXPROCS=%d", workerGOMAXPROCS(cfg))), "exec-plan", "-prop", prop, "-plan", f.Name())
+	gmp := workerGOMAXPROCS(cfg, 0)
+	if freshGOMAXPROCS > 0 {
+		gmp = freshGOMAXPROCS
+	}
+	so, se, code := execSelf(120*time.Second, append(workerEnvBase(cfg), fmt.Sprintf("GOMAXPROCS=%d", gmp)), "exec-plan", "-prop", prop, "-plan", f.Name())
 	if code != 0 {
 		return nil, fmt.Errorf("exec-plan exit %d: %s", code, tail(se, 600))
 	}
@@ -512,6 +525,13 @@ func drive(cfg driveCfg) int {
 		rf := map[string]interface{}{"property": final.Property, "oracle": final.Oracle, "site": final.Site, "detail": final.Detail,
 			"plan": final.Plan, "observed": final.Observed, "expected": final.Expected, "verif_seed": cfg.seed,
 			"minimisation": note, "replay": fmt.Sprintf("/verif/bin/check replay %s", path)}
+		if final.GOMAXPROCS > 0 || v.GOMAXPROCS > 0 {
+			g := final.GOMAXPROCS
+			if g == 0 {
+				g = v.GOMAXPROCS
+			}
+			rf["gomaxprocs"] = g
+		}
 		if len(final.Prefix) > 0 {
 			rf["prefix"] = final.Prefix
 			rf["prefix_note"] = "the violation shows only after these plans ran earlier in the same process: the library keeps state across independent calls/policies"
@@ -559,7 +579,7 @@ func drive(cfg driveCfg) int {
 		"simulated_components":   simulatedComponents[cfg.prop],
 		"uncontrolled":           uncontrolled[cfg.prop],
 		"workers":                cfg.workers,
-		"gomaxprocs_per_worker":  workerGOMAXPROCS(cfg),
+		"gomaxprocs_per_worker":  []int{workerGOMAXPROCS(cfg, 0), workerGOMAXPROCS(cfg, 1), workerGOMAXPROCS(cfg, 2), workerGOMAXPROCS(cfg, 3)},
 		"zero_probes":            zeroProbes(cfg.prop, tot.Counters),
 		"instrumentation_report": readInstrReport(cfg.instrRep),
 	}
@@ -740,6 +760,8 @@ func confirmWithPrefix(cfg driveCfg, eng *Engine, v Violation) (Violation, bool,
 	if len(prefix) == 0 {
 		return v, false, ""
 	}
+	freshGOMAXPROCS = v.GOMAXPROCS
+	defer func() { freshGOMAXPROCS = 0 }()
 	check := func(pre []json.RawMessage) *Violation {
 		for a := 0; a < 2; a++ {
 			rr, err := execSeqFresh(cfg.workdir, pre, v.Plan, cfg.prop)
@@ -860,9 +882,9 @@ func selfTest(cfg driveCfg, n int) (st SelfTest) {
 	}
 	if cfg.prop == "C13" {
 		// the baton scheduler needs spare Ps so that parked tasks keep their own P (DESIGN §2.4)
-		procs = []int{4, 16}
+		procs = []int{1, 16}
 		if cfg.tier != "quick" {
-			procs = []int{2, 4, 16}
+			procs = []int{1, 2, 16}
 		}
 	}
 	st.GOMAXPROCS = procs
@@ -945,7 +967,7 @@ func isolatedTest(cfg driveCfg, n int, ref []string, st *SelfTest) {
 			defer wg.Done()
 			sem <- struct{}{}
 			defer func() { <-sem }()
-			so, _, code := execSelf(10*time.Minute, append(workerEnvBase(cfg), fmt.Sprintf("GOMAXPROCS=%d", workerGOMAXPROCS(cfg))),
+			so, _, code := execSelf(10*time.Minute, append(workerEnvBase(cfg), fmt.Sprintf("GOMAXPROCS=%d", workerGOMAXPROCS(cfg, 0))),
 				"digest", "-prop", cfg.prop, "-tier", cfg.tier, "-seed", strconv.FormatUint(seed, 10), "-from", strconv.Itoa(idx), "-n", strconv.Itoa(idx+1))
 			if code == 0 {
 				mu.Lock()
@@ -1009,15 +1031,19 @@ func workerEnvBase(cfg driveCfg) []string {
 	return env
 }
 
-func workerGOMAXPROCS(cfg driveCfg) int {
+// workerGOMAXPROCS: C13 varies it per worker (swarm).  With 16 a parked task tends to keep its own P
+// and hence its own sync.Pool shard, which keeps pool-induced happens-before edges rare (race oracle,
+// DESIGN §10.2); with 1 or 2 all tasks share the P-local pools, which is what makes a pooled object
+// travel from one caller to the next (functional oracles: stale, aliased or doubly released pool entries).
+func workerGOMAXPROCS(cfg driveCfg, w int) int {
 	if cfg.prop == "C13" {
-		return 16 // spare Ps: a parked task tends to keep its own P, hence its own sync.Pool shard (DESIGN §2.4)
+		return []int{16, 2, 16, 1}[w%4]
 	}
 	return 1
 }
 
 func workerEnv(cfg driveCfg, w int) []string {
-	return append(workerEnvBase(cfg), fmt.Sprintf("GOMAXPROCS=%d", workerGOMAXPROCS(cfg)))
+	return append(workerEnvBase(cfg), fmt.Sprintf("GOMAXPROCS=%d", workerGOMAXPROCS(cfg, w)))
 }
 
 func explainWorkerDeath(cfg driveCfg, w, code int, stderr []byte) *Violation {
